@@ -150,7 +150,7 @@ let handle line =
       (match out with
        | Raise _ -> "{\"init\":" ^ jout out ^ ",\"steps\":[]}"
        | Ret _ -> "{\"init\":\"ok\",\"st0\":" ^ jstate s0 ^ ",\"steps\":[" ^ String.concat "," (run_ops np_step s0 (List.map op_of (list_of ops))) ^ "]}")
-  | L [A "alias"; A k; extra; al; pref; sp; st; d; dflt; nms; ivs; ops] ->
+  | L [A "alias"; A k; extra; al; pref; sp; st; d; dflt; nms; ivs; ops; reads] ->
       (* AliasMixin over a model / linker: constructor, ops through aliases, renamed export *)
       let dr = match dreq_of d with Some x -> x | None -> failwith "dreq" in
       (match alias_construct (aliases_of al) (names_of pref) with
@@ -167,7 +167,13 @@ let handle line =
                 let sfin = List.fold_left (fun s o -> fst (alias_step am o s)) s0 opl in
                 let ren = match export am sfin with
                   | Ret l -> jlist (fun (t, src) -> "[" ^ jname t ^ "," ^ jname src ^ "]") l | Raise e -> jstr (exn_name e) in
-                "{\"init\":\"ok\"," ^ amj ^ ",\"st0\":" ^ jstate s0 ^ ",\"steps\":[" ^ String.concat "," steps ^ "],\"export\":" ^ ren ^ "}"))
+                let jres = function Ret cells -> "{\"ok\":" ^ jlist jcell cells ^ "}" | Raise e -> jstr (exn_name e) in
+                let rds = List.map (function
+                    | L [A "g"; key] -> jres (alias_getitem am (key_of key) sfin)
+                    | L [A "a"; nm] -> jres (alias_getattr_var am (name_of nm) sfin)
+                    | _ -> failwith "read") (list_of reads) in
+                "{\"init\":\"ok\"," ^ amj ^ ",\"st0\":" ^ jstate s0 ^ ",\"steps\":[" ^ String.concat "," steps ^ "],\"export\":" ^ ren
+                ^ ",\"reads\":[" ^ String.concat "," rds ^ "]}"))
   | _ -> failwith "case"
 
 let () =
